@@ -100,9 +100,15 @@ def draw_name(draw, profile, used=None):
     return n
 
 
+LONG_POOL = [''.join(chr(65 + (i * 7) % 26) for i in range(n)) for n in (128, 130, 200, 255)]
+
+
 def draw_text(draw, profile, max_len=None):
     if profile.text_pool:
         return draw(st.sampled_from(profile.text_pool))
+    if profile.long_text and draw(st.integers(0, 24)) == 0:
+        # the same 128..255-character strings are also drawn for IDENT-coded values (draw_ident): equal text under two codes
+        return draw(st.sampled_from(LONG_POOL))
     if profile.long_text and draw(st.integers(0, 9)) == 0:
         n = draw(st.integers(100, profile.long_text))
         a, b = draw(st.integers(1, 90)), draw(st.integers(0, 90))
@@ -113,6 +119,8 @@ def draw_text(draw, profile, max_len=None):
 def draw_ident(draw, profile):
     if profile.text_pool:
         return draw(st.sampled_from(profile.text_pool))
+    if profile.long_text and draw(st.integers(0, 24)) == 0:
+        return draw(st.sampled_from(LONG_POOL))
     if profile.upper_names:
         return draw(st.text(alphabet=UPPER, min_size=1, max_size=16))
     return draw(st.text(alphabet=PRINTABLE, min_size=0, max_size=20))
@@ -145,6 +153,8 @@ def draw_datetime(draw):
 def draw_units(draw, profile):
     if not profile.units or draw(st.integers(0, 2)) != 0:
         return None
+    if not profile.upper_names and draw(st.integers(0, 11)) == 0:
+        return ''          # an empty unit string: accepted (with a warning), means "no units"
     if profile.unit_enums and draw(st.booleans()):
         # member names of dliswriter.enums.Unit as documented
         return {'$enum': ['Unit', draw(st.sampled_from(['METER', 'SECOND', 'FOOT', 'INCH', 'KELVIN', 'DEGREE_CELSIUS',
